@@ -480,7 +480,7 @@ def str_tool(ctx):
                     obs.append(Ob('SA-STR.tool', key2, False, ctx.loc(fi, fi.node),
                                   'the collision counter has no recognisable upper bound: the renumbered name grows without limit'))
                 else:
-                    digits = max(3, len(str(mx)))
+                    digits = max(_numbered_format(ctx, fi)[2] or 1, len(str(mx)))
                     total = pv.hi + digits
                     ok2 = total <= 8
                     obs.append(Ob('SA-STR.tool', key2, ok2, ctx.loc(fi, fi.node),
@@ -490,20 +490,49 @@ def str_tool(ctx):
     return obs
 
 
-def _max_collision_number(ctx, fi):
-    """largest value of the collision counter that can reach the `%.03d` formatting in build_iso_path"""
-    fmt = None
+def _numbered_format(ctx, fi):
+    """(expression node, name of the integer that is formatted into the renumbered name, minimum number of digits) for
+    the `'%s%.03d' % (prefix, n)` / `'{}{:03d}'.format(prefix, n)` / f-string that builds the renumbered name"""
+    import re as _re
+    import string as _string
     for n in ctx.own_nodes(fi):
-        if isinstance(n, ast.BinOp) and isinstance(n.op, ast.Mod) and isinstance(n.left, ast.Constant) and isinstance(n.left.value, str) and '%.03d' in n.left.value:
-            fmt = n
-            break
+        if isinstance(n, ast.BinOp) and isinstance(n.op, ast.Mod) and isinstance(n.left, ast.Constant) and isinstance(n.left.value, str):
+            from .fmtstr import DIRECTIVE
+            args = list(n.right.elts) if isinstance(n.right, ast.Tuple) else [n.right]
+            i = 0
+            for m in DIRECTIVE.finditer(n.left.value):
+                if m.group('c') == '%':
+                    continue
+                if m.group('c') in 'di' and i < len(args) and isinstance(args[i], ast.Name):
+                    w = m.group('p') or m.group('w') or '1'
+                    return n, args[i].id, int(w) if w.isdigit() else 1
+                i += 1
+        if isinstance(n, ast.Call) and isinstance(n.func, ast.Attribute) and n.func.attr == 'format' and isinstance(n.func.value, ast.Constant) and \
+                isinstance(n.func.value.value, str):
+            i = 0
+            for _lit, field, spec, _conv in _string.Formatter().parse(n.func.value.value):
+                if field is None:
+                    continue
+                idx = int(field) if field.isdigit() else i
+                if spec and spec.endswith('d') and idx < len(n.args) and isinstance(n.args[idx], ast.Name):
+                    m = _re.search(r'(\d+)d$', spec)
+                    return n, n.args[idx].id, int(m.group(1).lstrip('0') or '0') if m else 1
+                i += 1
+        if isinstance(n, ast.JoinedStr):
+            for v in n.values:
+                if isinstance(v, ast.FormattedValue) and isinstance(v.value, ast.Name) and v.format_spec is not None:
+                    spec = ''.join(x.value for x in v.format_spec.values if isinstance(x, ast.Constant))
+                    if spec.endswith('d'):
+                        m = _re.search(r'(\d+)d$', spec)
+                        return n, v.value.id, int(m.group(1).lstrip('0') or '0') if m else 1
+    return None, None, None
+
+
+def _max_collision_number(ctx, fi):
+    """largest value of the collision counter that can reach the formatting of the renumbered name in build_iso_path"""
+    fmt, counter, _digits = _numbered_format(ctx, fi)
     if fmt is None:
-        raise AnalysisError('anchor-vanished: %.03d formatting in build_iso_path')
-    counter = None
-    if isinstance(fmt.right, ast.Tuple):
-        for e in fmt.right.elts:
-            if isinstance(e, ast.Name) and e.id != 'prefix' and e.id != 'ext':
-                counter = e.id
+        raise AnalysisError('anchor-vanished: formatting of the renumbered name (prefix + zero-padded number) in build_iso_path')
     if counter is None:
         return None
     par = ctx.parents(fi)
